@@ -60,6 +60,29 @@ Proof.
       rewrite Z.pow_add_r, Z.pow_mul_r by lia. cbn. rewrite Z.pow_1_l; lia.
 Qed.
 
+(** predicates on canonical digit lists *)
+Lemma pgr_is_zero_spec l : canon l -> pgr_is_zero l = (val l =? 0).
+Proof.
+  intros C. destruct l as [|d l]; [reflexivity|]. cbn [pgr_is_zero].
+  symmetry. apply Z.eqb_neq. pose proof (canon_val_pos (d :: l) C ltac:(discriminate)). lia.
+Qed.
+Lemma pgr_is_one_spec l : canon l -> pgr_is_one l = (val l =? 1).
+Proof.
+  intros C. destruct l as [|d [|d2 l]]; cbn [pgr_is_one].
+  - reflexivity.
+  - rewrite val_single. reflexivity.
+  - symmetry. apply Z.eqb_neq. pose proof (canon_lower (d :: d2 :: l) C ltac:(discriminate)) as H.
+    cbn [length] in H. replace (Z.of_nat (S (S (length l))) - 1) with (Z.of_nat (S (length l))) in H by lia.
+    rewrite B_pow_S in H. pose proof (B_pow_nat (length l)). pose proof B_gt1. nia.
+Qed.
+Lemma pgr_is_odd_spec l : wf l -> pgr_is_odd l = Z.odd (val l).
+Proof.
+  intros W. unfold pgr_is_odd, pgr_is_even. destruct l as [|d l]; [reflexivity|].
+  cbn [val]. rewrite Z.negb_even. rewrite Z.add_comm, B_val.
+  replace (18446744073709551616 * val l + d) with (d + 2 * (9223372036854775808 * val l)) by ring.
+  now rewrite Z.odd_add_mul_2.
+Qed.
+
 Section WithBigOps.
 Variable bmul : list Z -> list Z -> outcome (list Z).
 Hypothesis bmul_spec : forall a b, canon a -> canon b -> bmul a b = Ret (enc (val a * val b)).
@@ -159,20 +182,6 @@ Proof.
 Qed.
 
 (** BigUint exponent *)
-Lemma pgr_is_zero_spec l : canon l -> pgr_is_zero l = (val l =? 0).
-Proof.
-  intros C. destruct l as [|d l]; [reflexivity|]. cbn [pgr_is_zero].
-  symmetry. apply Z.eqb_neq. pose proof (canon_val_pos (d :: l) C ltac:(discriminate)). lia.
-Qed.
-Lemma pgr_is_one_spec l : canon l -> pgr_is_one l = (val l =? 1).
-Proof.
-  intros C. destruct l as [|d [|d2 l]]; cbn [pgr_is_one].
-  - reflexivity.
-  - rewrite val_single. reflexivity.
-  - symmetry. apply Z.eqb_neq. pose proof (canon_lower (d :: d2 :: l) C ltac:(discriminate)) as H.
-    cbn [length] in H. replace (Z.of_nat (S (S (length l))) - 1) with (Z.of_nat (S (length l))) in H by lia.
-    rewrite B_pow_S in H. pose proof (B_pow_nat (length l)). pose proof B_gt1. nia.
-Qed.
 
 Theorem upow_big_spec x e : canon x -> canon e ->
   upow_big bmul p x e =
@@ -254,13 +263,6 @@ Proof.
   unfold ival. rewrite powsign_spec by lia. reflexivity.
 Qed.
 
-Lemma pgr_is_odd_spec l : wf l -> pgr_is_odd l = Z.odd (val l).
-Proof.
-  intros W. unfold pgr_is_odd, pgr_is_even. destruct l as [|d l]; [reflexivity|].
-  cbn [val]. rewrite Z.negb_even. rewrite Z.add_comm, B_val.
-  replace (18446744073709551616 * val l + d) with (d + 2 * (9223372036854775808 * val l)) by ring.
-  now rewrite Z.odd_add_mul_2.
-Qed.
 
 Theorem ipow_big_spec x e : icanon x -> canon e ->
   ipow_big bmul p x e =
